@@ -76,6 +76,19 @@ pub fn server_message(op: &Op) -> Option<(RMsg, u32, u32)> {
                     V::Null,
                     amf::num(7.0),
                 ],
+                // information objects of other shapes around the same code: the code decides
+                5 | 6 if code.is_some() => vec![status_obj(if *form == 5 { "error" } else { "warning" }, code.as_deref().unwrap(), "d")],
+                7 if code.is_some() => vec![amf::obj(vec![("code", amf::s(code.as_deref().unwrap()))])],
+                8 if code.is_some() => vec![amf::obj(vec![
+                    ("code", amf::s(code.as_deref().unwrap())),
+                    ("level", amf::s("status")),
+                    ("description", amf::s("Started playing stream. ".repeat(9).as_str())),
+                    ("details", amf::s("key0")),
+                    ("clientid", amf::num(1584259571.0)),
+                    ("timecode", amf::num(0.0)),
+                    ("isFastPlay", V::Bool(false)),
+                ])],
+                9 if code.is_some() => vec![amf::obj(vec![("level", amf::num(0.0)), ("description", V::Null), ("code", amf::s(code.as_deref().unwrap()))])],
                 1 => vec![],
                 2 => vec![amf::s("not an object")],
                 _ => vec![amf::obj(vec![("code", amf::num(5.0))])],
@@ -179,6 +192,9 @@ pub enum TxSel {
     Alias,
     Negative,
     NaN,
+    /// the id the next request would get (one above every id seen so far): never issued, so
+    /// unknown - also when a request that was refused has consumed it
+    NextUnissued,
 }
 
 #[derive(Clone, Copy, Debug, PartialEq)]
@@ -191,6 +207,8 @@ pub enum MsidSel {
 #[derive(Clone, Copy, Debug, PartialEq)]
 pub enum Sym {
     RequestConnection,
+    /// request_connection with an application name longer than an AMF0 string can be
+    RequestConnectionUnexpressible,
     RequestPlayback,
     RequestPublishing,
     StopPlayback,
@@ -223,6 +241,7 @@ fn sel_tx(m: &Model, s: TxSel, rng: &mut Rng) -> f64 {
         TxSel::Alias => any_outstanding + 4294967296.0,
         TxSel::Negative => -any_outstanding,
         TxSel::NaN => f64::NAN,
+        TxSel::NextUnissued => m.used_txids.iter().next_back().map(|x| *x as f64 + 1.0).unwrap_or(1.0),
         TxSel::Connect => m.outstanding.iter().find(|x| *x.1 == Purpose::Connect).map(|x| *x.0 as f64).unwrap_or(1.0),
         TxSel::Create => m.outstanding.iter().find(|x| *x.1 != Purpose::Connect).map(|x| *x.0 as f64).unwrap_or(2.0),
         TxSel::Stale => m.answered_txids.last().map(|x| *x as f64).unwrap_or(900.0),
@@ -274,6 +293,15 @@ pub fn resolve(sym: Sym, m: &Model, rng: &mut Rng, step: usize) -> Op {
     };
     match sym {
         Sym::RequestConnection => Op::RequestConnection { app: long_name(rng).unwrap_or_else(|| rng.spice(format!("app{}", step % 3))) },
+        Sym::RequestConnectionUnexpressible => {
+            let n = *rng.pick(&[65_536usize, 65_536, 65_537, 70_000, 131_072]);
+            let unit = *rng.pick(&["a", "a", "\u{e9}", "\u{4e2d}"]);
+            let mut s = unit.repeat(n / unit.len());
+            while s.len() < n {
+                s.push('x');
+            }
+            Op::RequestConnection { app: s }
+        }
         Sym::RequestPlayback => Op::RequestPlayback { key: long_name(rng).unwrap_or_else(|| rng.spice(format!("key{}", step % 2))) },
         Sym::RequestPublishing => Op::RequestPublishing { key: long_name(rng).unwrap_or_else(|| rng.spice(format!("key{}", step % 2))), kind: rng.pick(&["live", "record", "append"]).to_string() },
         Sym::StopPlayback => Op::StopPlayback,
@@ -291,9 +319,9 @@ pub fn resolve(sym: Sym, m: &Model, rng: &mut Rng, step: usize) -> Op {
         Sym::Result(t, form) => Op::Result { txid: sel_tx(m, t, rng), stream_id: if form == 0 { Some(*rng.pick(&[1.0, 5.0, 5.0, 7.0, 0.0])) } else { None }, non_number: form == 2 },
         Sym::Error(t) => Op::Error { txid: sel_tx(m, t, rng) },
         Sym::StatusPlayStart if rng.chance(1, 12) => Op::OtherCommand { txid: status_tx(m, rng) },
-        Sym::StatusPlayStart => Op::OnStatus { code: Some("NetStream.Play.Start".into()), form: if rng.chance(1, 5) { 4 } else { 0 }, msid: sel_msid(m, MsidSel::Active) , txid: status_tx(m, rng) },
-        Sym::StatusPublishStart => Op::OnStatus { code: Some("NetStream.Publish.Start".into()), form: if rng.chance(1, 5) { 4 } else { 0 }, msid: sel_msid(m, MsidSel::Active) , txid: status_tx(m, rng) },
-        Sym::StatusUnknown => Op::OnStatus { code: Some(rng.pick(&["NetStream.Play.Reset", "NetStream.Play.Stop", "NetStream.Unpublish.Success", "x", "NetStream.Play.START", "netstream.publish.start", "NETSTREAM.PLAY.START", "NetStream.Publish.Start ", " NetStream.Play.Start", "NetStream.Publish.Start\u{0}", "NetStream.Play.Star", "NetStream.Publish.Started"]).to_string()), form: 0, msid: sel_msid(m, MsidSel::Active) , txid: status_tx(m, rng) },
+        Sym::StatusPlayStart => Op::OnStatus { code: Some("NetStream.Play.Start".into()), form: if rng.chance(1, 5) { 4 } else if rng.chance(1, 5) { 5 + rng.below(5) as u8 } else { 0 }, msid: sel_msid(m, MsidSel::Active) , txid: status_tx(m, rng) },
+        Sym::StatusPublishStart => Op::OnStatus { code: Some("NetStream.Publish.Start".into()), form: if rng.chance(1, 5) { 4 } else if rng.chance(1, 5) { 5 + rng.below(5) as u8 } else { 0 }, msid: sel_msid(m, MsidSel::Active) , txid: status_tx(m, rng) },
+        Sym::StatusUnknown => Op::OnStatus { code: Some(rng.pick(&["NetStream.Play.Reset", "NetStream.Play.Stop", "NetStream.Unpublish.Success", "x", "NetStream.Play.START", "netstream.publish.start", "NETSTREAM.PLAY.START", "NetStream.Publish.Start ", " NetStream.Play.Start", "NetStream.Publish.Start\u{0}", "NetStream.Play.Star", "NetStream.Publish.Started"]).to_string()), form: if rng.chance(1, 6) { 5 + rng.below(5) as u8 } else { 0 }, msid: sel_msid(m, MsidSel::Active) , txid: status_tx(m, rng) },
         Sym::StatusMalformed(f) => Op::OnStatus { code: None, form: f, msid: 0 , txid: status_tx(m, rng) },
         Sym::Audio(s) => {
             let (ts, data) = media(rng);
@@ -380,10 +408,16 @@ pub fn random_sym(rng: &mut Rng, m: &Model) -> Sym {
             St::Publishing => return *rng.pick(&[Sym::PublishVideo, Sym::PublishAudio, Sym::PublishMetadata, Sym::StopPublishing]),
         }
     }
-    let tx = |rng: &mut Rng| *rng.pick(&[TxSel::Connect, TxSel::Create, TxSel::Create, TxSel::Stale, TxSel::Stale, TxSel::Unknown, TxSel::Zero, TxSel::Max, TxSel::FracAbove, TxSel::FracBelow, TxSel::Alias, TxSel::Negative, TxSel::NaN]);
+    let tx = |rng: &mut Rng| *rng.pick(&[TxSel::Connect, TxSel::Create, TxSel::Create, TxSel::Stale, TxSel::Stale, TxSel::Unknown, TxSel::Zero, TxSel::Max, TxSel::FracAbove, TxSel::FracBelow, TxSel::Alias, TxSel::Negative, TxSel::NaN, TxSel::NextUnissued]);
     let ms = |rng: &mut Rng| *rng.pick(&[MsidSel::Active, MsidSel::Active, MsidSel::Other, MsidSel::Zero]);
     match rng.below(34) {
-        0 | 1 => Sym::RequestConnection,
+        0 | 1 => {
+            if rng.chance(1, 10) {
+                Sym::RequestConnectionUnexpressible
+            } else {
+                Sym::RequestConnection
+            }
+        }
         2 | 3 => Sym::RequestPlayback,
         4 | 5 => Sym::RequestPublishing,
         6 | 7 => Sym::StopPlayback,
@@ -495,8 +529,8 @@ impl Check for C10 {
         "C10"
     }
     fn plan(&self, tier: Tier) -> Plan {
-        let mut p = Plan::new(392 + tier.pick(600_000, 60_000_000), tier.pick(35.0, 480.0));
-        p.mandatory = 392;
+        let mut p = Plan::new(393 + tier.pick(600_000, 60_000_000), tier.pick(35.0, 480.0));
+        p.mandatory = 393;
         p.cpu_budget_s = 120.0;
         p
     }
@@ -551,6 +585,58 @@ impl Check for C10 {
             out.count("enumerated_sequences_after_connect", n);
             return;
         }
+        if k == 392 {
+            // a request refused because its argument cannot be expressed leaves nothing behind: an
+            // answer carrying the id it would have got is an answer to an unknown transaction, and
+            // the workflow goes on as if the call had never been made
+            let nx = TxSel::NextUnissued;
+            let follows = [Sym::Result(nx, 1), Sym::Result(nx, 0), Sym::Result(nx, 2), Sym::Error(nx)];
+            let prefixes: [&[Sym]; 4] = [
+                &[],
+                &[Sym::RequestConnection, Sym::Error(TxSel::Connect)],
+                &[Sym::RequestConnectionUnexpressible],
+                &[Sym::RequestConnection, Sym::Error(TxSel::Connect), Sym::RequestConnectionUnexpressible, Sym::Result(nx, 1)],
+            ];
+            let tail = [
+                Sym::RequestConnection,
+                Sym::Result(TxSel::Connect, 1),
+                Sym::RequestPlayback,
+                Sym::Result(TxSel::Create, 0),
+                Sym::StatusPlayStart,
+                Sym::Video(MsidSel::Active),
+                Sym::StopPlayback,
+                Sym::RequestPublishing,
+                Sym::Result(TxSel::Create, 0),
+                Sym::StatusPublishStart,
+                Sym::PublishVideo,
+            ];
+            let mut n = 0u64;
+            for _rep in 0..6 {
+                for pre in prefixes.iter() {
+                    for f in follows.iter() {
+                        for cut in [0usize, 2, tail.len()] {
+                            let mut seq: Vec<Sym> = pre.to_vec();
+                            seq.push(Sym::RequestConnectionUnexpressible);
+                            seq.push(*f);
+                            seq.extend_from_slice(&tail[..cut]);
+                            if cut == 2 {
+                                // once more from the connected state (refused for its state) and after it
+                                seq.push(Sym::RequestConnectionUnexpressible);
+                                seq.push(*f);
+                                seq.extend_from_slice(&tail[2..]);
+                            }
+                            let mut it = |i: usize, _m: &Model, _r: &mut Rng| seq.get(i).cloned();
+                            if !run_history(&mut it, rng, out) {
+                                return;
+                            }
+                            n += 1;
+                        }
+                    }
+                }
+            }
+            out.count("histories_with_a_request_refused_for_its_argument", n);
+            return;
+        }
         let len = match rng.below(40) {
             0 => rng.usize(200, 400), // long histories: state left over from much earlier
             1..=9 => rng.usize(5, 12),
@@ -591,7 +677,7 @@ impl Check for C10 {
         run_history(&mut it, rng, out);
     }
     fn rule(&self) -> String {
-        "histories over application calls {request_connection, request_playback, request_publishing, stop_playback, stop_publishing, publish_metadata/video/audio, send_ping_request} and server messages encoded by the independent encoder {_result / _error with the current connect, the current createStream, an already answered, a never issued, 0, 2^32-1, an outstanding id plus or minus a fraction, plus 2^32, negated, and NaN as transaction id, with / without / with a non-numeric stream id; onStatus Play.Start, Publish.Start, unknown codes, missing/ill-typed arguments; audio/video/onMetaData on the active stream, another stream, stream 0; ping request/response, acknowledgement, stream begin, set chunk size}. Random walks of 5-80 steps (1 in 40 of 200-400; 1 in 60 with a burst of 129-1100 (1 in 60 of them: 65,537 or 66,000) repetitions of one symbol after connect, then an answer to the oldest createStream; one third of the steps biased towards progress, the rest uniform: duplicates, out-of-order and stale answers), plus all sequences of length 5 (thorough 6) over a 14-symbol reduced alphabet, and all sequences of the same length over a second 14-symbol alphabet (answers to createStream: current, stale, unknown, refused; both activities; media on the active and another stream) run after the fixed prefix request_connection, connect result. After every step events, decoded emitted commands/media/pings, emitted byte count and Ok/Err are compared with model::client. distinct = hash of the (model state class, symbol) sequence.".to_string()
+        "histories over application calls {request_connection, request_playback, request_publishing, stop_playback, stop_publishing, publish_metadata/video/audio, send_ping_request} and server messages encoded by the independent encoder {_result / _error with the current connect, the current createStream, an already answered, a never issued, 0, 2^32-1, an outstanding id plus or minus a fraction, plus 2^32, negated, and NaN as transaction id, with / without / with a non-numeric stream id; onStatus Play.Start, Publish.Start, unknown codes, missing/ill-typed arguments; audio/video/onMetaData on the active stream, another stream, stream 0; ping request/response, acknowledgement, stream begin, set chunk size}. Random walks of 5-80 steps (1 in 40 of 200-400; 1 in 60 with a burst of 129-1100 (1 in 60 of them: 65,537 or 66,000) repetitions of one symbol after connect, then an answer to the oldest createStream; one third of the steps biased towards progress, the rest uniform: duplicates, out-of-order and stale answers), plus all sequences of length 5 (thorough 6) over a 14-symbol reduced alphabet, and all sequences of the same length over a second 14-symbol alphabet (answers to createStream: current, stale, unknown, refused; both activities; media on the active and another stream) run after the fixed prefix request_connection, connect result. One connect request in 10 carries an application name AMF0 cannot express (65,536-131,072 bytes): refused without bytes, and judged from then on as if never made; answers are also drawn with the id one above every id seen so far (the id such a request would have consumed); mandatory case 392: 288 fixed histories around such refusals. Start and unknown statuses come with information objects of six shapes (level status/error/warning/number/absent, three or seven properties): the code decides. After every step events, decoded emitted commands/media/pings, emitted byte count and Ok/Err are compared with model::client. distinct = hash of the (model state class, symbol) sequence.".to_string()
     }
     fn assumptions(&self) -> Vec<String> {
         vec![
